@@ -198,5 +198,5 @@ Theorem add_zero_operand_refuted : forall x y n m, n <> m -> n <> 1 -> m <> 1 ->
   torch_elementwise_shape (x ++ [n; n]) (y ++ [m; m]) = None /\
   pinned_add_zero_operand (x ++ [n; n]) (y ++ [m; m]) = Ok (x ++ [n; n]) /\
   pinned_mul_zero_operand (x ++ [n; n]) (y ++ [m; m]) = Ok (y ++ [m; m]) /\
-  lib_zero_add (x ++ [n; n]) (y ++ [m; m]) = Ok (y ++ [m; m]).
+  pinned_zero_add (x ++ [n; n]) (y ++ [m; m]) = Ok (y ++ [m; m]).
 Proof. intros. split; [apply square_sizes_must_match; assumption | repeat split]. Qed.
